@@ -102,6 +102,9 @@ def model_check_timers(run, tier):
     run.add(tlc_runs=["Timers %s x %d posts, locked: %d distinct states; NoPostAfterCancelReturned, NoDeadlock, Terminates hold" % (
       timers, times, r.distinct)])
     run.add(states=r.distinct, transitions=r.generated)
+  from checks.util import _tlaps_proof
+  _tlaps_proof(run, "Timers", "Timers", ["SPECIFICATION Spec\nCONSTANTS Timers = {\"t1\", \"t2\"}\nTimes = 2\nVariant = \"locked\"\n"],
+               "Spec => []NoPostAfterCancelReturned for any number of timed sources and any number of posts per source")
 
 
 def check(prop):
